@@ -1,24 +1,34 @@
+(* Preservation of SemInv.Inv: ainv of an actor other than the stepping one.  Assembled from one lemma per
+   control point (SemPresOa.v, SemPresOb.v, SemPresOc.v; proof script ao_script in SemPresTac.v).
+   `actor` is defined in SemCase.v (re-exported). *)
 From Coq Require Import List Arith ZArith Bool Lia.
 Import ListNotations.
 Require Import MayV.Sync.SemModel MayV.Sync.SemInv MayV.Sync.SemTac.
+Require Export MayV.Sync.SemCase.
+Require Import MayV.Sync.SemPresOa MayV.Sync.SemPresOb MayV.Sync.SemPresOc.
 Open Scope Z_scope.
-
-Definition actor (ac : action) := match ac with Wait x _ | TryWait x | Post x | GetValue x | Step x | Fire x => x end.
 
 Lemma pres_A_other s ac s' a' : Inv s -> step s ac = Some s' -> actor ac <> a' -> ainv s' a'.
 Proof.
-  intros Hi H Hx. g_facts Hi. pose proof (IA _ Hi a') as Ha'. cbn [actor] in Hx.
-  step_cases H; cbn [actor] in Hx; unfold ainv, sorted_into, mk, set_pc, set_ctx, set_res, set_av in *; cbn [cnt q nextb A Bk ini uposts succ ung giv pre hand owe] in *.
-  all: rewrite ?(upd_neq (A s) a a') by congruence.
-  all: try exact Ha'.
-  all: destruct Ha' as (L1 & L2 & L3 & L4 & L5 & L6).
-  all: pose proof (KD _ Hi a a' Hx) as HKD.
-  all: a_facts Hi a; b_facts Hi (ab (A s a)); b_facts Hi (aw (A s a)); b_facts Hi (ab (A s a')); b_facts Hi (aw (A s a')); b_facts Hi (nextb s).
-  all: try match goal with E : NoDup (?n :: _) |- _ => b_facts Hi n; inversion E; subst end.
-  all: try match goal with E : q _ = _ :: _ |- _ => rewrite E in * end.
-  all: split; [lia|split;[lia|split;[lists; mem|split;[lists; mem|split;
-        [intro Hp; specialize (L5 Hp); clear L6 | clear L5; destruct (apc (A s a')) eqn:Epc'; try exact I]]]]].
-  all: upd_tac; cbn [apc ab aw actx atimed acomp av ares tok parked reason unp rel owner fresh] in *; lists.
-  all: repeat match goal with e : ab (A _ _) = _ |- _ => progress (rewrite e in * ) | e : aw (A _ _) = _ |- _ => progress (rewrite e in * ) end.
-  all: brk; repeat match goal with |- _ /\ _ => split end; intros; brk; try mem.
+  intros Hi H Hx. destruct (is_step ac) eqn:Hn; [|eapply pres_A_other_env; eassumption].
+  destruct ac as [a t|a|a|a|a|a]; try discriminate Hn. cbn [actor] in Hx. destruct (apc (A s a)) eqn:Epc.
+  - rewrite (step_idle s a Epc) in H. discriminate H.
+  - eapply pres_A_other_W0; eassumption.
+  - eapply pres_A_other_W0c; eassumption.
+  - eapply pres_A_other_W1; eassumption.
+  - eapply pres_A_other_W2; eassumption.
+  - eapply pres_A_other_WP; eassumption.
+  - eapply pres_A_other_WW; eassumption.
+  - eapply pres_A_other_E1; eassumption.
+  - eapply pres_A_other_E2; eassumption.
+  - eapply pres_A_other_E3; eassumption.
+  - eapply pres_A_other_E4; eassumption.
+  - eapply pres_A_other_P0; eassumption.
+  - eapply pres_A_other_K1; eassumption.
+  - eapply pres_A_other_K2; eassumption.
+  - eapply pres_A_other_K3; eassumption.
+  - eapply pres_A_other_K4; eassumption.
+  - eapply pres_A_other_Y0; eassumption.
+  - eapply pres_A_other_Y0c; eassumption.
+  - eapply pres_A_other_G0; eassumption.
 Qed.
